@@ -40,7 +40,9 @@ type c20Case struct {
 	NCl      int         `json:"ncl"`
 	Setter   bool        `json:"setter"`
 	MidYield bool        `json:"mid_yield"` // OnData pauses between Peek and ReadBytes and then checks that its view is still owned
-	Script   [][2]int    `json:"script"` // per OnData invocation: bytes to consume, 1 = call Close inside
+	Script   [][2]int    `json:"script"` // per OnData invocation: bytes to consume, number of Close() calls inside it
+	Sync     []int       `json:"sync"`   // synchronous reads by the user BEFORE SetCallbacks: ReadBytes(k), k = 0: Peek
+	Deadlock bool        `json:"deadlock"` // every remaining thread spins in a cooperative wg.Wait
 	Steps    []vsStepRec `json:"steps"`
 	Offers   [][]int     `json:"offers"`
 	Consumed []int       `json:"consumed"`
@@ -73,6 +75,7 @@ type c20Cb struct {
 	offerStep   []int
 	consumed    []int
 	closeInside int
+	syncN       int // bytes consumed synchronously before the callbacks were installed
 	midYield    bool
 	bm          *bufferManager
 	offs        *[]uint32 // shared-memory offsets of the arrivals, in order
@@ -125,7 +128,7 @@ func (cb *c20Cb) OnData(r BufferReader) {
 		}
 		r.ReleasePreviousRead()
 	}
-	if cl == 1 {
+	for i := 0; i < cl; i++ {
 		cb.closeInside++
 		cb.stream.Close()
 	}
@@ -232,10 +235,53 @@ func c20Run(env *c20Env, c c20Case, mk func() vsChooser, maxSteps int) c20Case {
 			closeRet[i] = true
 		})
 	}
+	syncTid := -1
+	if len(c.Sync) > 0 {
+		syncTid = len(vs.threads)
+		if c.Setter {
+			syncTid++
+		}
+	}
 	if c.Setter {
 		// the explicit scheduling point separates installing the callbacks from the store of callbackInProcess
 		vsSpawn(func() { vsPre(); _ = s.SetCallbacks(cb) })
 	}
+	if len(c.Sync) > 0 {
+		// the user reads synchronously before it installs the callbacks: readMore moves everything pending into
+		// recvBuf, then Peek / ReadBytes.  (No instrumented access: the whole read is one scheduler step.)
+		vsSpawn(func() {
+			for _, k := range c.Sync {
+				if s.getCallbacks() != nil {
+					return // callbacks installed: the user no longer reads synchronously
+				}
+				avail := s.recvBuf.Len()
+				s.pendingData.Lock()
+				for _, w := range s.pendingData.unread {
+					if sl, err := env.client.bufferManager.readBufferSlice(w.offset); err == nil {
+						avail += sl.size()
+					}
+				}
+				s.pendingData.Unlock()
+				if avail == 0 {
+					continue // a real read would block: the model moves and consumes nothing
+				}
+				if k == 0 {
+					_, _ = s.BufferReader().Peek(1)
+					continue
+				}
+				if k > avail {
+					k = avail
+				}
+				b, _ := s.BufferReader().ReadBytes(k)
+				for _, x := range b {
+					cb.consumed = append(cb.consumed, int(x))
+				}
+				cb.syncN += len(b)
+				s.BufferReader().ReleasePreviousRead()
+			}
+		})
+	}
+	_ = syncTid
 	base := len(vs.threads)
 	var states []uint32
 	steps, finished := vsDrive(nil, mk(), maxSteps, func(i int, rec vsStepRec) {
@@ -243,7 +289,24 @@ func c20Run(env *c20Env, c c20Case, mk func() vsChooser, maxSteps int) c20Case {
 		states = append(states, atomic.LoadUint32(&s.state))
 	})
 	if !finished {
-		vsFinish(vs.threads)
+		// deadlock: every live thread's latest step found wg.Wait busy — do not spin on them
+		dead := true
+		lastOf := map[int]*vsEvent{}
+		for _, st := range steps {
+			if st.Ev != nil {
+				ev := *st.Ev
+				lastOf[st.Tid] = &ev
+			}
+		}
+		for _, a := range vsAlive(vs.threads) {
+			if e := lastOf[a]; e == nil || e.Kind != vsKBusy {
+				dead = false
+			}
+		}
+		c.Deadlock = dead
+		if !dead {
+			vsFinish(vs.threads)
+		}
 	}
 	vs.active = false
 	c.Steps = steps
@@ -333,7 +396,7 @@ func c20Run(env *c20Env, c c20Case, mk func() vsChooser, maxSteps int) c20Case {
 		or["order/once: the bytes consumed by OnData are not a prefix of the bytes that arrived"] = true
 	}
 	// each invocation is offered a contiguous run of the arrival stream starting at what was consumed before
-	consumedBefore := 0
+	consumedBefore := cb.syncN
 	for k, off := range cb.offers {
 		if cb.offerState[k] != uint32(streamClosed) {
 			if consumedBefore > len(allIn) || !isPrefix(off, allIn[consumedBefore:]) {
@@ -412,6 +475,9 @@ func c20Run(env *c20Env, c c20Case, mk func() vsChooser, maxSteps int) c20Case {
 			}
 			prev = x
 		}
+	}
+	if c.Deadlock {
+		o10["SIG:C10:Close-inside-OnData-waits-for-its-own-goroutine|a Close() never returned: close() waits on asyncGoroutineWg, which only the waiting thread(s) can release; the stream stays in the table, no close callback, peer not told"] = true
 	}
 	if cb.local+cb.remote > 1 {
 		o10["callbacks: more than one of OnLocalClose/OnRemoteClose was delivered"] = true
@@ -534,6 +600,20 @@ func c20PrefixChooser(prefix []int) vsChooser {
 	}
 }
 
+// run the given threads to completion one after the other, then hand over to inner
+func c20PhaseChooser(first []int, inner vsChooser) vsChooser {
+	return func(al []int, all int, last int, lastEv *vsEvent) int {
+		for _, t := range first {
+			for _, a := range al {
+				if a == t {
+					return t
+				}
+			}
+		}
+		return inner(al, all, last, lastEv)
+	}
+}
+
 // odometer chooser for exhaustive enumeration: path[d] = index into the alive set at depth d
 type c20Odo struct {
 	path   []int
@@ -615,6 +695,9 @@ func c20GenScript(r *vrand, closeInsidePct int) [][2]int {
 		cl := 0
 		if !closed && r.chance(closeInsidePct) {
 			cl = 1
+			if r.chance(35) {
+				cl = 2 // Close() repeated inside the same OnData
+			}
 			closed = true
 		}
 		sc = append(sc, [2]int{k, cl})
@@ -719,6 +802,27 @@ func TestVerif_C20(t *testing.T) {
 	} {
 		c := c20Case{ID: id, Kind: cfg.kind, Cmp: true, Cb0: false, Setter: true, Inb: cfg.inb, Script: cfg.script, Strat: "fixed-prefix"}
 		o.emit(c20Run(env, c, func() vsChooser { return c20PrefixChooser(cfg.prefix) }, 3000))
+		id++
+		late++
+	}
+	// ---- the user reads (part of) what arrived synchronously, then installs callbacks; no further traffic ----
+	for k := 0; k < 6+n/20; k++ {
+		c := c20Case{ID: id, Kind: "sync-then-setcb", Cmp: true, Cb0: false, Setter: true}
+		c.Inb = c20GenInb(r, 1+r.intn(2), 0)
+		c.Sync = []int{[]int{0, 1, 2, 3, 100}[r.intn(5)]}
+		if r.chance(30) {
+			c.Sync = append(c.Sync, 1)
+		}
+		c.Script = c20GenScript(r, 0)
+		// tids: 0 event loop, 1 SetCallbacks, 2 synchronous reader
+		if k%3 != 2 {
+			c.Strat = "arrivals;sync-read;then-random"
+			o.emit(c20Run(env, c, func() vsChooser { return c20PhaseChooser([]int{0, 2}, vsRandomChooser(r, 50, 0)) }, 3000))
+		} else {
+			strat, mk := c20Strategy(r, id, 3)
+			c.Strat = strat
+			o.emit(c20Run(env, c, mk, 3000))
+		}
 		id++
 		late++
 	}
